@@ -36,6 +36,9 @@ class Err(Exception):
         super().__init__(f"invocation {n}")
         self.n = n
 
+    def __bool__(self):
+        return False
+
 
 class Recv:
     """receivers are ==-equal and hash-equal but distinct instances"""
